@@ -15,6 +15,7 @@ of the daemon engine: append its function to MONITORS.)
 """
 import json
 import os
+import signal
 import re
 import shutil
 import stat
@@ -545,6 +546,57 @@ def spawn_worker(bdir, tier, which, lo, hi):
     return res
 
 
+def _descendants(pid):
+    out = []
+    try:
+        for t in os.listdir("/proc/%d/task" % pid):
+            with open("/proc/%d/task/%s/children" % (pid, t)) as f:
+                for c in f.read().split():
+                    out.append(int(c))
+                    out.extend(_descendants(int(c)))
+    except OSError:
+        pass
+    return out
+
+
+def _pstate(pid):
+    try:
+        with open("/proc/%d/stat" % pid) as f:
+            d = f.read()
+        return d[d.rindex(")") + 2:].split()[0]
+    except (OSError, ValueError):
+        return "?"
+
+
+def run_spawner(argv, timeout, env, stdin, prog):
+    """like core.run_with_watchdog, but when the time is up the process tree is looked at before it is killed:
+    a spawner that sleeps although its input is at end-of-file and every delivery child has already exited (zombies it
+    never reaped) will never send the missing reports - that is a state, not a matter of waiting longer.
+    -> (rc, out, err, stuck) with stuck = description of that state or None"""
+    import subprocess
+    p = subprocess.Popen(argv, stdout=subprocess.PIPE, stderr=subprocess.PIPE, start_new_session=True, env=env, stdin=stdin)
+    try:
+        out, err = p.communicate(timeout=timeout)
+        return p.returncode, out, err, None
+    except subprocess.TimeoutExpired:
+        stuck = None
+        try:
+            procs = [(q, _pstate(q), os.path.basename(os.readlink("/proc/%d/exe" % q)) if os.path.exists("/proc/%d/exe" % q) else "?") for q in _descendants(p.pid)]
+        except OSError:
+            procs = []
+        sp = [q for q in procs if q[2] == prog]
+        kids = [q for q in procs if q[2] != prog and q[2] != "strace"]
+        zombies = [q for q in procs if q[1] == "Z"]
+        if sp and all(q[1] == "S" for q in sp) and zombies and all(q[1] == "Z" for q in procs if q not in sp and q[2] != "strace"):
+            stuck = {"spawner": sp, "unreaped_children": len(zombies)}
+        try:
+            os.killpg(p.pid, signal.SIGKILL)
+        except ProcessLookupError:
+            pass
+        out, err = p.communicate()
+        return None, out, err, stuck
+
+
 def _spawn_batches(res, b, spawn, home, which, lo, hi):
     os.chmod(home, 0o755)
     prog = "qmail-lspawn" if which == "l" else "qmail-rspawn"
@@ -588,12 +640,18 @@ def _spawn_batches(res, b, spawn, home, which, lo, hi):
         argv = ["strace", "-f", "-qq", "-xx", "-s", "300", "-e", "trace=open,openat,write", "-e", "signal=none", "-o", st,
                 home + "/bin/" + prog] + (["./Mailbox"] if which == "l" else [])
         rc = None
+        stuck = None
         for attempt in (0, 1):
             with open(inp, "rb") as fin:
-                rc, out, err = core.run_with_watchdog(argv, 300, env=env, stdin=fin)
-            if rc is not None:
+                rc, out, err, stuck = run_spawner(argv, 120, env, fin, prog)
+            if rc is not None or stuck:
                 break
         wit0 = {"case": {"monitor": "spawners", "which": which, "batch": bi}, "program": prog}
+        if rc is None and stuck:
+            res.violate("C18/spawn/%s/reports!=commands/never-sent" % which,
+                        "%s sleeps with its input at end-of-file and %d delivery children exited but never reaped: their reports will never be sent"
+                        % (prog, stuck["unreaped_children"]), dict(wit0, state=stuck, commands=len(cmds)))
+            break           # every further batch would wait for the watchdog again
         if rc is None:
             res.inconclusive.append("%s watchdog (batch %d)" % (prog, bi))
             continue
